@@ -272,6 +272,17 @@ func Property() runner.Property {
 			out = append(out, scenario(cfg{Name: "error,ok/h2", Hist: history(2), Faults: map[int]fakeapi.WatchFault{1: W("error", 0)}, Mode: "S2", Bound: d}))
 			out = append(out, scenario(cfg{Name: "error,error,ok/h2", Hist: history(2), Faults: map[int]fakeapi.WatchFault{1: W("error", 0), 2: W("error", 0)}, Mode: "S2", Bound: d}))
 			out = append(out, scenario(cfg{Name: "close@1,close@1/h3", Hist: history(3), Faults: map[int]fakeapi.WatchFault{1: W("close", 1), 2: W("close", 1)}, Mode: "S2", Bound: d}))
+			// five failed connects in a row (and: spread over the history), then a working one: any number of them is survived
+			five := map[int]fakeapi.WatchFault{}
+			for i := 1; i <= 5; i++ {
+				five[i] = W("error", 0)
+			}
+			out = append(out, scenario(cfg{Name: "error x5,ok/h2", Hist: history(2), Faults: five, Mode: "S2", Bound: 1}))
+			out = append(out, scenario(cfg{Name: "close@1,error,close@1,error,close@0,error,error,error,ok/h3", Hist: history(3), Faults: map[int]fakeapi.WatchFault{1: W("close", 1), 2: W("error", 0), 3: W("close", 1), 4: W("error", 0), 5: W("close", 0), 6: W("error", 0), 7: W("error", 0), 8: W("error", 0)}, Mode: "S2", Bound: 1}))
+			// a bookmark and the end of the stream right behind a burst
+			for _, pos := range []int{2, 3} {
+				out = append(out, scenario(cfg{Name: fmt.Sprintf("bookmark+close@%d/h%d", pos, hn), Hist: history(hn), Faults: map[int]fakeapi.WatchFault{1: W("bookmark+close", pos)}, Mode: "S2", Bound: d + 1}))
+			}
 			// versions cross 9 -> 10 (a resume version compared as a string goes wrong there)
 			for _, pos := range []int{1, 2, 3} {
 				out = append(out, scenario(cfg{Name: fmt.Sprintf("digit-boundary/close@%d/h4", pos), StartRV: 8, Hist: history(4), Faults: map[int]fakeapi.WatchFault{1: W("close", pos)}, Mode: "S2", Bound: d}))
